@@ -5,6 +5,8 @@
    Gen/ImportsSrc.v holds static facts re-extracted from restorer.go on every run. *)
 From Coq Require Import List String ZArith NArith Bool.
 Import ListNotations.
+From DV Require Import Proofs.PathOrderLaws.
+From Coq Require Import Sorted Permutation.
 From DV Require Import Proofs.ImportLoopsProofs.
 From DV Require Import Model.Decision Gen.DecisionSrc Proofs.PathOrderProofs.
 From DV Require Import Model.Tree Model.Imports Proofs.ImportsProofs Proofs.ImportsExact Gen.ImportsSrc.
@@ -205,6 +207,29 @@ Example C07_effective_alias_loops_run :
   /\ eff_outcome "c/z" "cz" [] (run (eff_val "c/z" "cz" [] inuse) effalias_manual_src) = Some [("c/z", "cz")].
 Proof. vm_compute. repeat split; reflexivity. Qed.
 
+(* packagePathOrderLess is a strict total order on import paths (irreflexive, transitive, total), so the
+   sorted arrangement of a duplicate-free list of paths is unique: ANY sorted rearrangement -- whatever
+   algorithm sort.Slice runs, which is neither stable nor specified -- is the model's sort_by, and the
+   result does not depend on the order in which the paths were collected (Go map iteration order) *)
+Theorem C07_path_order_is_a_strict_total_order :
+  (forall a, Model.Imports.path_less a a = false) /\
+  (forall a b c, Model.Imports.path_less a b = true -> Model.Imports.path_less b c = true -> Model.Imports.path_less a c = true) /\
+  (forall a b, a <> b -> Model.Imports.path_less a b = true \/ Model.Imports.path_less b a = true).
+Proof. exact (conj path_less_irrefl (conj path_less_trans path_less_total)). Qed.
+
+Theorem C07_any_sort_by_the_path_order_is_the_models : forall l l',
+  NoDup l -> Permutation l l' -> StronglySorted pl l' -> l' = Model.Imports.sort_by (fun p => p) l.
+Proof. exact any_sort_is_the_models. Qed.
+
+Theorem C07_sorted_paths_ignore_collection_order : forall l l',
+  NoDup l -> Permutation l l' -> Model.Imports.sort_by (fun p => p) l' = Model.Imports.sort_by (fun p => p) l.
+Proof. exact sort_by_ignores_collection_order. Qed.
+
+Example C07_path_order_laws_are_not_vacuous :
+  Model.Imports.sort_by (fun s => s) ["golang.org/x/b"; "fmt"; "a.b/c"; "os"]%string = ["fmt"; "os"; "a.b/c"; "golang.org/x/b"]%string /\
+  Model.Imports.sort_by (fun s => s) ["os"; "a.b/c"; "golang.org/x/b"; "fmt"]%string = ["fmt"; "os"; "a.b/c"; "golang.org/x/b"]%string.
+Proof. exact path_order_laws_nonvacuous. Qed.
+
 Print Assumptions C07_conflicts_resolved_in_sorted_order.
 Print Assumptions C07_conflict_loop_finds_a_free_name.
 Print Assumptions C07_import_names_pairwise_distinct.
@@ -221,3 +246,6 @@ Print Assumptions C07_effective_alias_loops_source_computes_the_model.
 Print Assumptions C07_anonymous_imports_required_source_computes_the_model.
 Print Assumptions C07_import_loops_are_within_the_vocabulary.
 Print Assumptions C07_effective_alias_loops_run.
+Print Assumptions C07_path_order_is_a_strict_total_order.
+Print Assumptions C07_any_sort_by_the_path_order_is_the_models.
+Print Assumptions C07_sorted_paths_ignore_collection_order.
